@@ -29,10 +29,13 @@ deriving Repr, Inhabited
 
 abbrev Handler := Ctx → Ctx × Bool      -- returns the new state and whether an error was returned
 
-/-- a Pre middleware may carry a rewrite rule `from ↦ to` -/
+/-- a Pre middleware may carry rewrite rules `from ↦ to` for the path, the method (like
+    `middleware.MethodOverride`) and the Host -/
 structure MwSpec where
   id : Mw
   rw : Option (Str × Str) := none
+  rwM : Option (Str × Str) := none
+  rwH : Option (Str × Str) := none
 deriving Repr, Inhabited
 
 /-- the path after middleware `m` applied its rewrite rule (if it has one) -/
@@ -148,7 +151,7 @@ def selected (c : Cfg) (host method path : Str) : Ev × Bool × List Mw :=
     if method = methodOptions then (.rtr 204, false, []) else (.rtr 405, true, [])
   | .panic => (.rtr 500, true, [])
 
-def plain (ms : List Mw) : List MwSpec := ms.map fun i => ⟨i, none⟩
+def plain (ms : List Mw) : List MwSpec := ms.map fun i => ⟨i, none, none, none⟩
 
 /-- the innermost handler: records its event and returns its result -/
 def terminal (ev : Ev) (err : Bool) : Handler := fun x => (⟨x.trace ++ [ev], x.path⟩, err)
@@ -162,6 +165,23 @@ def routed (c : Cfg) (host method : Str) : Handler := fun ctx =>
 def serve (c : Cfg) (host method path : Str) : List Ev :=
   ((applyMiddleware (applyMiddleware (routed c host method) (plain c.use)) c.pre) ⟨[], path⟩).1.trace
 
+/-- one rule `from ↦ to` applied to a request field -/
+def rwField (rule : Option (Str × Str)) (x : Str) : Str :=
+  match rule with
+  | some (a, b) => if x = a then b else x
+  | none => x
+
+/-- the method / Host the router sees after the Pre chain: every Pre middleware rewrites the request
+    when it is entered, before it calls `next`, and routing happens innermost -/
+def methodAfterPre (ms : List MwSpec) (m : Str) : Str := ms.foldl (fun x mw => rwField mw.rwM x) m
+def hostAfterPre (ms : List MwSpec) (h : Str) : Str := ms.foldl (fun x mw => rwField mw.rwH x) h
+
+/-- `Echo.ServeHTTP` with Pre middleware that may also rewrite the method and the Host: host router and
+    method are looked at *after* the Pre chain (`e.findRouter(r.Host).Find(r.Method, GetPath(r), c)` sits
+    inside the handler the Pre chain wraps) -/
+def serveRq (c : Cfg) (host method path : Str) : List Ev :=
+  serve c (hostAfterPre c.pre host) (methodAfterPre c.pre method) path
+
 /-! ## wire -/
 open Wire
 
@@ -173,7 +193,9 @@ def pOp : P Op := do
   | 0 =>
     let i ← nat
     let rw ← opt (do let a ← str; let b ← str; pure (a, b))
-    pure (.pre ⟨i, rw⟩)
+    let rwM ← opt (do let a ← str; let b ← str; pure (a, b))
+    let rwH ← opt (do let a ← str; let b ← str; pure (a, b))
+    pure (.pre ⟨i, rw, rwM, rwH⟩)
   | 1 => do let i ← nat; pure (.use i)
   | 2 => do let n ← str; let ms ← pMws; pure (.host n ms)
   | 3 => do let p ← opt nat; let pf ← str; let ms ← pMws; pure (.group p pf ms)
@@ -193,6 +215,6 @@ def encEv : Ev → String
 def runLine (line : String) : String :=
   match parseLine (do let ops ← list pOp; let h ← str; let m ← str; let p ← str; pure (ops, h, m, p)) line with
   | none => "bad-op"
-  | some (ops, h, m, p) => render ((serve (run ops) h m p).map encEv)
+  | some (ops, h, m, p) => render ((serveRq (run ops) h m p).map encEv)
 
 end C04
